@@ -150,8 +150,8 @@ func gen(t *rapid.T) Case {
 	c.File = kit.GenGwFile(t, kit.Scale(64<<10, 2<<20))
 	c.InDir = rapid.IntRange(0, 2).Draw(t, "in_dir") == 0
 	c.Name = rapid.SampledFrom([]string{"f", "file.txt", "a.bin", "data", "x.html"}).Draw(t, "name")
-	c.Method = rapid.SampledFrom([]string{"GET", "GET", "GET", "HEAD"}).Draw(t, "method")
-	c.HasRange = rapid.IntRange(0, 9).Draw(t, "has_range") != 0
+	c.Method = rapid.SampledFrom([]string{"GET", "GET", "GET", "GET", "HEAD"}).Draw(t, "method")
+	c.HasRange = rapid.IntRange(0, 14).Draw(t, "has_range") != 0
 	if c.HasRange {
 		n := rapid.SampledFrom([]int{1, 1, 1, 1, 2, 2, 3, 4}).Draw(t, "nspecs")
 		allowInvalid := rapid.IntRange(0, 7).Draw(t, "allow_invalid") == 0
@@ -212,25 +212,35 @@ func satisfiable(specs []RSpec, size int64) (set []iv, valid bool) {
 	return set, true
 }
 
-// preseekOffset mirrors where the pre-positioned content reader ends up for the FIRST listed
+// preseekOffsets mirrors where the pre-positioned content reader ends up for the FIRST listed
 // range as seen by a length-less parse (used only to recognise the known finding precisely).
-func preseekOffset(specs []RSpec, size int64) (int64, bool) {
+// A zero suffix ("-0") is read as "from offset 0" by the pinned parser and skipped by a parser
+// that treats it as unsatisfiable; both readings are returned.
+func preseekOffsets(specs []RSpec, size int64) []int64 {
+	var out []int64
 	for _, s := range specs {
 		switch s.Kind {
 		case "ab", "a":
-			return s.A, true
+			return append(out, s.A)
 		case "s":
-			if s.A > size {
-				return 0, false
+			if s.A == 0 {
+				out = append(out, 0)
+				continue
 			}
-			return size - s.A, true
+			if s.A > size {
+				return out
+			}
+			return append(out, size-s.A)
 		case "empty":
 			continue
 		default:
-			return 0, false
+			if strings.TrimSpace(s.Raw) == "" {
+				continue // whitespace-only element: both gateway parsers skip it
+			}
+			return out
 		}
 	}
-	return 0, false
+	return out
 }
 
 var crRe = regexp.MustCompile(`^bytes (\d+)-(\d+)/(\d+)$`)
@@ -374,17 +384,26 @@ func run(c Case) kit.Result {
 		return ""
 	}
 	// position the known pre-seek finding can be recognised by
-	preOff, preOK := preseekOffset(c.Specs, size)
-	preseekBody := func(sendLen int64) []byte {
-		// what a reader pre-positioned at preOff delivers when asked for sendLen bytes
-		if !preOK || preOff >= size {
-			return []byte{}
+	// matchesPreseek reports whether body is what a reader pre-positioned at the first listed
+	// range (and not at the announced start) delivers when asked for sendLen bytes.
+	matchesPreseek := func(announced, sendLen int64) (int64, bool) {
+		for _, off := range preseekOffsets(c.Specs, size) {
+			if off == announced {
+				continue
+			}
+			got := []byte{}
+			if off < size {
+				end := off + sendLen
+				if end > size || end < off {
+					end = size
+				}
+				got = data[off:end]
+			}
+			if bytes.Equal(body, got) {
+				return off, true
+			}
 		}
-		end := preOff + sendLen
-		if end > size || end < preOff {
-			end = size
-		}
-		return data[preOff:end]
+		return 0, false
 	}
 
 	switch {
@@ -408,7 +427,7 @@ func run(c Case) kit.Result {
 			if !bytes.Equal(body, data) {
 				// known finding: headers say "whole file" but the reader had been pre-positioned at the
 				// start of the first listed range.
-				if c.HasRange && preOK && preOff != 0 && bytes.Equal(body, preseekBody(size)) {
+				if preOff, ok := matchesPreseek(0, size); c.HasRange && ok {
 					return known("preseek-mismatch", fail("200 announces the whole file but the body starts at offset %d (pre-seek of the first listed range)", preOff))
 				}
 				return fail("200 body differs from the file (first difference at %d)", firstDiff(body, data))
@@ -459,7 +478,7 @@ func run(c Case) kit.Result {
 		if isGet {
 			want := data[a : b+1]
 			if !bytes.Equal(body, want) {
-				if preOK && preOff != a && bytes.Equal(body, preseekBody(b-a+1)) {
+				if preOff, ok := matchesPreseek(a, b-a+1); ok {
 					return known("preseek-mismatch", fail("206 announces %d-%d but the body is taken from offset %d (pre-seek of the first listed range)", a, b, preOff))
 				}
 				return fail("206 body is not file[%d:%d] (first difference at %d)", a, b+1, firstDiff(body, want))
@@ -486,7 +505,11 @@ func run(c Case) kit.Result {
 		}
 		// known finding: suffix longer than the file is rejected by the pre-seek
 		if isGet && c.HasRange && status == http.StatusInternalServerError {
-			if s, ok := firstSpec(c.Specs); ok && s.Kind == "s" && s.A > size {
+			// (the first range that the length-less parser acts on: the first listed one, or the first
+			// after zero suffixes if those are skipped as unsatisfiable)
+			s, ok := firstSpec(c.Specs, false)
+			s2, ok2 := firstSpec(c.Specs, true)
+			if (ok && s.Kind == "s" && s.A > size) || (ok2 && s2.Kind == "s" && s2.A > size) {
 				return known("suffix-longer-than-file", fail("suffix range longer than the file answered with 500"))
 			}
 		}
@@ -514,9 +537,12 @@ func hdr(c Case) string {
 	return c.rangeHeader()
 }
 
-func firstSpec(specs []RSpec) (RSpec, bool) {
+func firstSpec(specs []RSpec, skipZeroSuffix bool) (RSpec, bool) {
 	for _, s := range specs {
-		if s.Kind != "empty" {
+		if skipZeroSuffix && s.Kind == "s" && s.A == 0 {
+			continue
+		}
+		if s.Kind != "empty" && !(s.Kind == "raw" && strings.TrimSpace(s.Raw) == "") {
 			return s, true
 		}
 	}
@@ -548,7 +574,7 @@ func firstDiff(a, b []byte) int {
 var spec = kit.Spec[Case]{
 	Prop: "C30", Name: "main",
 	Rule:  "UnixFS file (0..64 KiB quick / 2 MiB thorough; balanced or trickle, raw or protobuf leaves, chunk 1..256 KiB, width 2..174, CIDv0/v1, optional mtime) imported with the real importer and served by gateway.NewHandler over NewBlocksBackend (in-process, httptest recorder), addressed directly or through a directory; GET/HEAD with a Range header rendered from a grammar (1-4 elements: first-last, first-, -suffix, empty elements, OWS; offsets 0, size-1, size, size+1, chunk boundaries, beyond, huge), optional If-Range (matching/weak/other ETag, date) and If-None-Match; oracle = RFC 7233 consistency + exact slice; non-trivial = a satisfiable Range is in force and it has >=2 elements or a clipped range touching offset 0, size-1 or a chunk boundary",
-	Quick: 1500, Thorough: 9000,
+	Quick: 1200, Thorough: 9000,
 	Gen: gen, Run: run,
 	Sample: func(c Case) any {
 		return map[string]any{"file": c.File, "in_dir": c.InDir, "method": c.Method, "range": hdr(c), "if_range": c.IfRange, "if_none_match": c.IfNoneMatch}
